@@ -35,11 +35,31 @@ UNITS = [
     unit('suspend_now', 'sp_suspend_now', SN_RX, loop=True, **SPQ),
     unit('await_suspend', 'sp_await_suspend', AS_RX, loop=True, extra_types=SPT, extra_boundary=[r'install_queue_and_call<cocls::suspend_point<void>::await_suspend'],
          spec=SPQ['spec'], defines=['CV_QUEUE_INSTANCE_PTR QINST', 'SN_CF AS_CFP'], timeout=600,
+         replay=dict(src='c06_await_own_last.cpp', flags=['-O1', '-g']),
          note='coroutine mode (a ready queue is installed); the normal-mode branch re-enters await_suspend under a freshly installed queue and is not covered by this unit'),
+    # bounded siblings (no loop contracts, unwinding): decide the same contracts on points of <= 5 handles when a loop was rewritten
+    unit('suspend_now_bounded', 'sp_suspend_now', SN_RX, loop=False, **dict(SPQ, harness='h_suspend_now', defines=['CV_QUEUE_INSTANCE_PTR QINST', 'CV_BOUNDED_FALLBACK 1', 'CV_BOUND_N 5'],
+         unwind=24, kind='bounded', bounded='suspend points of <= 5 handles (inline and heap representation), loops unwound instead of loop contracts', timeout=900, object_bits=9)),
+    unit('await_suspend_bounded', 'sp_await_suspend', AS_RX, loop=False, extra_types=SPT, extra_boundary=[r'install_queue_and_call<cocls::suspend_point<void>::await_suspend'],
+         spec=SPQ['spec'], harness='h_await_suspend', defines=['CV_QUEUE_INSTANCE_PTR QINST', 'SN_CF AS_CFP', 'CV_BOUNDED_FALLBACK 1', 'CV_BOUND_N 5'],
+         unwind=8, kind='bounded', bounded='suspend points of <= 5 handles (inline and heap representation), loops unwound instead of loop contracts', timeout=900, object_bits=9),
     unit('clear', 'sp_clear', r'^cocls::suspend_point<void>::clear\(\)$', extra_types=SPT, extra_names={'sp_suspend_now': SN_RX}, extra_boundary=[SN_RX], spec=SPQ['spec']),
     unit('dtor', 'sp_dtor', r'^cocls::suspend_point<void>::~suspend_point\(\)$', extra_types=SPT, extra_names={'sp_suspend_now': SN_RX}, extra_boundary=[SN_RX], spec=SPQ['spec']),
     unit('ia_suspend', 'ia_suspend', r'^cocls::coro_queue::initial_awaiter::await_suspend\(std::__n4861::coroutine_handle<void>\)$', **WITH_FLUSH),
 ]
+# "does not start executing until the running coroutine suspends or finishes" also binds the end of an async coroutine: its final
+# awaiter hands control to a released waiter of ITS future (symmetric transfer) or back to the resumer - never to the ready queue.
+# That clause is in the contract of async_promise::final_awaiter::await_suspend (C04), re-run here.
+import importlib.util as _ilu5, os as _os5, copy as _copy5
+def _c04(names):
+    s = _ilu5.spec_from_file_location('c05_c04', _os5.path.join(_os5.path.dirname(_os5.path.dirname(_os5.path.abspath(__file__))), 'C04', 'units.py')); m = _ilu5.module_from_spec(s); s.loader.exec_module(m)
+    out = []
+    for x in m.UNITS:
+        if x['name'] in names:
+            v = _copy5.deepcopy(x); v['name'] = 'C04_' + x['name']; out.append(v)
+    return out
+UNITS += _c04(['fa_await_suspend'])
+
 META = dict(
     level='proof',
     level_text='Every scheduling primitive of coro_queue.h (resume, install_queue_and_resume, flush_queue, push, swap_coroutine, pause, resume_handle_next, can_block, initial_awaiter) and the members of suspend_point that hand coroutines to the scheduler (suspend_now, clear, destructor, await_suspend in coroutine mode) are verified against contracts over an abstract FIFO ready queue, for every queue length and content, every suspend-point size < 2^28 in both representations, with the environment (the resumed coroutine) free to append to and dequeue from the queue at every resume. Run-to-suspension = "in coroutine mode nothing is resumed and the handle lands at the tail"; FIFO/each-once = "the i-th handle taken from the queue is the i-th handle resumed, counts equal"; full drain = "queue empty and mode restored on return to normal code"; pause = one in at the tail, one out from the head.',
